@@ -107,7 +107,7 @@ def check(tier, seed, procs):
     depth = 5 if tier == 'quick' else 7
     from vf import dbmc
 
-    res = dbmc.bfs(H, (sorted(MONITORS), setups(tier), tier, OPTS), depth=depth, procs=procs, time_budget=80 if tier == 'quick' else 1500)
+    res = dbmc.bfs(H, (sorted(MONITORS), setups(tier), tier, OPTS), depth=depth, procs=procs, time_budget=80 if tier == 'quick' else 900)
     cov = bf.coverage(res, f'group trees root>g1>g2 (+ sibling g3), one job per group (one always-run variant), cancel of any group in any order, '
                            f'second update submitted beneath the groups, depth {depth}')
     return {'coverage': cov, 'violations': res.violations, 'assumptions': bf.ASSUME,
